@@ -1536,10 +1536,17 @@ static void
 mmx_rule_mullb (OrcCompiler *p, void *user, OrcInstruction *insn)
 {
   const int src0 = p->vars[insn->src_args[0]].alloc;
-  const int src1 = p->vars[insn->src_args[1]].alloc;
+  int src1 = p->vars[insn->src_args[1]].alloc;
   const int dest = p->vars[insn->dest_args[0]].alloc;
   const int tmp = orc_compiler_get_temp_reg (p);
   const int tmp2 = orc_compiler_get_temp_reg (p);
+
+  if (src1 == dest) {
+    /* dest is written before the last read of the second operand */
+    const int src1_copy = orc_compiler_get_temp_reg (p);
+    orc_mmx_emit_movq (p, src1, src1_copy);
+    src1 = src1_copy;
+  }
 
   if (src0 != dest) {
     orc_mmx_emit_movq (p, src0, dest);
@@ -1564,10 +1571,17 @@ static void
 mmx_rule_mulhsb (OrcCompiler *p, void *user, OrcInstruction *insn)
 {
   const int src0 = p->vars[insn->src_args[0]].alloc;
-  const int src1 = p->vars[insn->src_args[1]].alloc;
+  int src1 = p->vars[insn->src_args[1]].alloc;
   const int dest = p->vars[insn->dest_args[0]].alloc;
   const int tmp = orc_compiler_get_temp_reg (p);
   const int tmp2 = orc_compiler_get_temp_reg (p);
+
+  if (src1 == dest) {
+    /* dest is written before the last read of the second operand */
+    const int src1_copy = orc_compiler_get_temp_reg (p);
+    orc_mmx_emit_movq (p, src1, src1_copy);
+    src1 = src1_copy;
+  }
 
   if (src0 != dest) {
     orc_mmx_emit_movq (p, src0, dest);
@@ -1597,10 +1611,17 @@ static void
 mmx_rule_mulhub (OrcCompiler *p, void *user, OrcInstruction *insn)
 {
   const int src0 = p->vars[insn->src_args[0]].alloc;
-  const int src1 = p->vars[insn->src_args[1]].alloc;
+  int src1 = p->vars[insn->src_args[1]].alloc;
   const int dest = p->vars[insn->dest_args[0]].alloc;
   const int tmp = orc_compiler_get_temp_reg (p);
   const int tmp2 = orc_compiler_get_temp_reg (p);
+
+  if (src1 == dest) {
+    /* dest is written before the last read of the second operand */
+    const int src1_copy = orc_compiler_get_temp_reg (p);
+    orc_mmx_emit_movq (p, src1, src1_copy);
+    src1 = src1_copy;
+  }
 
   if (src0 != dest) {
     orc_mmx_emit_movq (p, src0, dest);
